@@ -61,6 +61,10 @@ ATOMS = [
 EXTRA_ATOMS = [
     A("fnptr12", "int (*{p}f12)(int, int, int, int, int, int, int, int, int, int, int, int);", [("{p}f12", "agg")]),
     A("fnptr13", "int (*{p}f13)(int, int, int, int, int, int, int, int, int, int, int, int, int);", [("{p}f13", "agg")]),
+    # variadic function pointers: the `...` is not a parameter, so 12 named parameters + `...` is still inside the limit
+    A("fnv12", "int (*{p}v12)(int, int, int, int, int, int, int, int, int, int, int, int, ...);", [("{p}v12", "agg")]),
+    A("fnv13", "int (*{p}v13)(int, int, int, int, int, int, int, int, int, int, int, int, int, ...);", [("{p}v13", "agg")]),
+    A("fnv1", "int (*{p}v1)(const char *, ...);", [("{p}v1", "agg")]),
     A("arr32", "int {p}a32[32];", [("{p}a32", "arr")]),
     A("arr33", "int {p}a33[33];", [("{p}a33", "arr")]),
     A("bf32B", "unsigned long long {p}w0:64; unsigned long long {p}w1:64; unsigned long long {p}w2:64; unsigned long long {p}w3:63;", []),
